@@ -108,7 +108,10 @@ def standin(tier, seed):
             if rep % 3 != 2:
                 mv.to_displace_labels = lab
             p0 = a.get_positions()
-            r = mv(ctx)
+            try:
+                r = mv(ctx)
+            except Exception as e:  # noqa: BLE001
+                V.add("shared_context:raises", {"shared_context": True, "call": t}, repr(e)); break
             d = a.get_positions() - p0
             case = {"shared_context": True, "labels": (LA if mv is A else LB).tolist(), "call": t, "order": ["A" if m is A else "B" for m in order]}
             V.case(case)
@@ -131,9 +134,12 @@ def standin(tier, seed):
         for s_ in subs[1:]:
             comp = comp + s_
         p0 = a.get_positions()
-        r = comp(ctx)
         case = {"composite_of_overlapping_label_sets": [x.labels.tolist() for x in subs]}
         V.case(case)
+        try:
+            r = comp(ctx)
+        except Exception as e:  # noqa: BLE001
+            V.add("composite:raises", case, repr(e)); continue
         rec = [x for x in comp.displaced_labels if x is not None]
         if len(set(rec)) != len(rec):
             V.add("composite:same_particle_twice", case, rec)
